@@ -187,3 +187,13 @@ func zzHavoc(name string, ptr interface{}, spec string) {
 	}
 	fill(name, reflect.ValueOf(ptr).Elem(), "")
 }
+
+// zzPreGraph is consumed by the overlay-patched replayEvents (see vlib/runner.py): when set,
+// the real replay loop starts from this graph instead of an empty one.
+var zzPreGraph *Graph
+
+func zzReplayFrom(g *Graph, events []Event) (*Graph, error) {
+	zzPreGraph = g
+	defer func() { zzPreGraph = nil }()
+	return replayEvents(events)
+}
